@@ -100,3 +100,59 @@ def resolver(prog):
 def evaluated(table):
     """the table is usable when every name that must resolve did evaluate (to anything)"""
     return table is not None and all(table.get(n) is not None for n in EXPECT_OK) and table.get("zz") is not None
+
+
+CONSUMER_SAMPLES = [(["A", "G", "C"], ("Ok", ["A", "A", "B", "C"])), (["H"], ("Ok", ["A", "B", "C", "A"])), ([], ("Ok", [])), (["A", "zz"], "Err"), (["zz", "A"], "Err"),
+                    (["A", "M"], "Err"), (["L"], "Err"), (["B", "A"], ("Ok", ["B", "A"]))]
+
+
+def consumer_table(prog, key):
+    """`key` = config::Certificate::get_hooks / config::Account::get_hooks, interpreted on the sample configuration with several
+    hook-name lists: [(names, got, want)] or None. An account without a `hooks` key resolves to no hook."""
+    b = prog.body(key)
+    if b is None:
+        return None
+    owner = key.rsplit("::", 1)[0]
+    fs = prog.adt_fields(owner)
+    if "hooks" not in fs:
+        return None
+    fty = [f for f in prog.adt(owner)["variants"][0]["fields"] if f["name"] == "hooks"][0]["ty"]
+    optional = fty.startswith("core::option::Option<")
+    rows = []
+    try:
+        def hook(n):
+            return struct_val(prog, "acmed::config::Hook", {"name": vstr(n), "hook_type": Val("list", []), "allow_failure": NONE, "args": NONE, "stdin": NONE, "stdin_str": NONE,
+                                                             "stdout": NONE, "stderr": NONE, "cmd": vstr("true")})
+
+        def group(n, hs):
+            return struct_val(prog, "acmed::config::Group", {"name": vstr(n), "hooks": Val("list", [vstr(h) for h in hs])})
+        cfg = struct_val(prog, CFG, {"hook": Val("list", [hook(n) for n in HOOKS]), "group": Val("list", [group(n, hs) for n, hs in GROUPS])})
+        follow = lambda cs: (cs.name or "").startswith("acmed::config::")
+        samples = list(CONSUMER_SAMPLES) + ([(None, ("Ok", []))] if optional else [])
+        for names, want in samples:
+            from ..absint import some
+            lst = Val("list", [vstr(n) for n in (names or [])])
+            hv = (some(lst) if names is not None else NONE) if optional else lst
+            me = struct_val(prog, owner, {"hooks": hv})
+            it = Interp(b, success_model(b, None), 200000)
+            it.follow = follow
+            r = it.run({1: Val("ref", me), 2: Val("ref", cfg)})
+            rv = r.ret.deref() if r.kind == "return" and r.ret is not None else None
+            got = None
+            if rv is not None and rv.k == "adt" and rv.extra:
+                if rv.extra[1] == "Err":
+                    got = "Err"
+                elif rv.extra[1] == "Ok" and rv.v and rv.v[0].deref().k == "list":
+                    hf = prog.adt_fields("acmed::hooks::Hook")
+                    nm = []
+                    for x in rv.v[0].deref().v:
+                        xd = x.deref()
+                        nv = xd.v[hf.index("name")].deref() if xd.k == "adt" and xd.extra and xd.extra[0] == "acmed::hooks::Hook" else None
+                        nm.append(nv.v if nv is not None and nv.k == "str" else None)
+                    got = ("Ok", nm)
+            if got is None:
+                return None
+            rows.append((names, got, want))
+    except Exception:
+        return None
+    return rows
